@@ -6,6 +6,7 @@ package main
 import (
 	"encoding/json"
 	"fmt"
+	"go/types"
 	"os"
 
 	"golang.org/x/tools/go/types/objectpath"
@@ -96,7 +97,17 @@ Run "garble map" with the same garble flags used to build, since flags such as
 			if parent := obj.Parent(); parent != nil && parent != tf.pkg.Scope() {
 				continue
 			}
-			newName, ok := tf.obfuscatedObjectName(obj)
+			nameObj := obj
+			if vr, ok := obj.(*types.Var); ok && vr.Embedded() {
+				// An embedded field has no name of its own: the build names it
+				// after its type, so that is the name to list, not a field hash.
+				tname := namedType(vr.Type())
+				if tname == nil {
+					continue // an unnamed type like int; not obfuscated
+				}
+				nameObj = tname
+			}
+			newName, ok := tf.obfuscatedObjectName(nameObj)
 			if !ok {
 				continue // not obfuscated
 			}
